@@ -6,7 +6,8 @@ import vlib
 from checks import c30 as P
 
 # thrown types: unions of these atoms
-ATOMS = [('cls', 'Int'), ('cls', 'String'), ('cls', 'Float'), ('cls', 'Symbol'), ('cls', 'Bool'),
+# (no `Bool`: whether the Go normaliser folds `true | false` into `Bool` depends on how the union was assembled)
+ATOMS = [('cls', 'Int'), ('cls', 'String'), ('cls', 'Float'), ('cls', 'Symbol'),
          ('lit', 'N'), ('lit', 'T'), ('lit', 'F'), ('lit', ('i', 1)), ('lit', ('i', 2)), ('lit', ('s', "a")),
          ('lit', ('y', "a")), ('lit', ('y', "b")), ('lit', ('f', 3))]
 
@@ -117,9 +118,18 @@ class CovGen(P.Gen):
         return p
 
 
+def atom_covered(env, cases, atom):
+    """model-free: every sample value of the atom is matched by some catch"""
+    return all(P.py_select(env, cases, v) != "else" for v in values_of(atom))
+
+
 def gen_cov(rng):
     g = CovGen(rng)
-    atoms = rng.sample(ATOMS, rng.choice([1, 1, 2, 2, 3]))
+    pool = ATOMS + [('lit', 'N')] * 4 + [('lit', 'T'), ('lit', 'F')]
+    atoms = []
+    for a in rng.sample(pool, rng.choice([1, 1, 2, 2, 3])):
+        if a not in atoms:
+            atoms.append(a)
     ty = atoms[0]
     for a in atoms[1:]:
         ty = ('u', ty, a)
@@ -133,6 +143,12 @@ def gen_cov(rng):
         i = rng.randrange(len(cases) - 1)
         cases[i:i + 2] = [('or', P.strip_binders(cases[i]), P.strip_binders(cases[i + 1]))]
     rng.shuffle(cases)
+    if rng.random() < 0.45:
+        # adversarial: add a member of the thrown type that the catches do NOT cover (some sample value of it
+        # escapes every catch): the checker must demand a throw signature
+        cands = [a for a in ATOMS if a not in atoms and not atom_covered(P.ENV, cases, a)]
+        if cands:
+            ty = ('u', ty, rng.choice(cands + [c for c in cands if c == ('lit', 'N')] * 3))
     return make_cov(P.ENV, cases, ty)
 
 
@@ -198,6 +214,8 @@ def check_cov(ctx, lines):
                 continue
             chunks = a["stdout"].split("@@\n")[1:]
             got = [c.strip() for c in chunks]
+            if got and got[-1] == "" and a["outcome"] != "value":
+                got.pop()        # the call after the last marker did not return
             bad = None
             for j, v in enumerate(vals):
                 w = "c" + want[j].split(" ")[0] if want[j] != "else" else "uncaught"
